@@ -22,6 +22,9 @@ pub enum Ev {
     Connect,
     /// a connection that never becomes a session
     BadPeer(&'static str),
+    /// a connection that sends nothing and stays open (inside the TLS handshake for good): it holds a
+    /// place like any accepted connection and must not disturb anybody else
+    SilentPeer,
     /// the k-th oldest live client goes away by itself
     ClientLeaves(usize),
     /// every live session must answer
@@ -40,16 +43,32 @@ impl Listener<ClientState> for StateLog {
 
 struct Peer {
     id: usize,
-    channel: Channel,
+    channel: Option<Channel>,
     states: Arc<Mutex<Vec<ClientState>>>,
+    /// a raw connection that never speaks (then there is no channel)
+    silent: Option<tokio::net::TcpStream>,
 }
 
 impl Peer {
     fn disconnected(&self) -> bool {
+        if let Some(s) = &self.silent {
+            let mut b = [0u8; 16];
+            return match s.try_read(&mut b) {
+                Ok(0) => true,
+                Ok(_) => false,
+                Err(e) if e.kind() == std::io::ErrorKind::WouldBlock => false,
+                Err(_) => true,
+            };
+        }
         self.states.lock().unwrap().iter().any(|s| matches!(s, ClientState::WaitAfterDisconnect(_)))
     }
     async fn request(&self, k: u16) -> Result<(), RequestError> {
-        self.channel
+        if self.silent.is_some() {
+            // "served" for a silent connection means: still open
+            return if self.disconnected() { Err(RequestError::NoConnection) } else { Ok(()) };
+        }
+        let Some(channel) = &self.channel else { return Err(RequestError::NoConnection) };
+        channel
             .write_single_register(RequestParam::new(UnitId::new(1), Duration::from_secs(2)), Indexed::new(k, self.id as u16))
             .await
             .map(|_| ())
@@ -65,6 +84,7 @@ pub fn gen_history(rng: &mut Rng) -> (usize, Vec<Ev>) {
             0..=3 => Ev::Connect,
             4 | 5 | 6 => Ev::BadPeer(*rng.pick(&["plaintext_modbus", "garbage", "connect_and_close", "client_hello_fragment"])),
             7 => Ev::ClientLeaves(rng.usize_below(3)),
+            8 => Ev::SilentPeer,
             _ => Ev::RequestAll,
         });
     }
@@ -130,7 +150,7 @@ pub async fn run_history(max_sessions: usize, evs: &[Ev], grace: Duration, ev: &
                 let st = states.clone();
                 let up = wait_until(|| st.lock().unwrap().iter().any(|s| matches!(s, ClientState::Connected | ClientState::WaitAfterFailedConnect(_))), Duration::from_secs(10)).await;
                 let connected = states.lock().unwrap().iter().any(|s| matches!(s, ClientState::Connected));
-                let p = Peer { id: next_id, channel, states };
+                let p = Peer { id: next_id, channel: Some(channel), states, silent: None };
                 next_id += 1;
                 ev.count("tls_good_connections", 1);
                 if !up || !connected {
@@ -145,15 +165,21 @@ pub async fn run_history(max_sessions: usize, evs: &[Ev], grace: Duration, ev: &
                 if live.len() >= limit {
                     // the oldest must go, everybody else must stay
                     let oldest = live.remove(0);
-                    let st = oldest.states.clone();
-                    let gone = wait_until(|| st.lock().unwrap().iter().any(|s| matches!(s, ClientState::WaitAfterDisconnect(_))), grace * 10).await;
+                    // a connection that is still inside the handshake gives its place away but is only
+                    // dropped when the handshake ends: nothing is claimed about its socket
+                    let gone = if oldest.silent.is_some() {
+                        ev.count("tls_silent_connections_evicted", 1);
+                        true
+                    } else {
+                        wait_until(|| oldest.disconnected(), grace * 10).await
+                    };
                     ev.count("tls_evictions_expected", 1);
                     if !gone {
                         reqno += 1;
                         let r = oldest.request(reqno).await;
                         problems.push(("tls:oldest_not_evicted_at_limit".to_string(), format!("step {step}: a connection arrived at the limit ({limit}) but the oldest session (client {}) is still {}", oldest.id, if r.is_ok() { "served" } else { "not reporting a disconnect" })));
                     }
-                    let _ = oldest.channel.shutdown().await;
+                    if let Some(c) = &oldest.channel { let _ = c.shutdown().await; }
                 }
                 live.push(p);
             }
@@ -195,17 +221,42 @@ pub async fn run_history(max_sessions: usize, evs: &[Ev], grace: Duration, ev: &
                     // a connection arriving at the limit may evict the oldest session even though it never
                     // becomes one itself ("a new connection arriving at the limit is accepted and the oldest
                     // session is closed"): either outcome is accepted, the model follows what happened
-                    if live[0].disconnected() {
+                    if live[0].silent.is_some() || live[0].disconnected() {
                         ev.count("tls_oldest_evicted_by_connection_that_failed_its_handshake", 1);
                         let o = live.remove(0);
-                        let _ = o.channel.shutdown().await;
+                        if let Some(c) = &o.channel { let _ = c.shutdown().await; }
                     }
                 }
+            }
+            Ev::SilentPeer => {
+                ev.count("tls_silent_connections", 1);
+                let Ok(stream) = tokio::net::TcpStream::connect(addr).await else {
+                    problems.push(("tls:silent_connection_refused".into(), format!("step {step}: TCP connect failed")));
+                    continue;
+                };
+                let p = Peer { id: next_id, channel: None, states: Arc::new(Mutex::new(vec![])), silent: Some(stream) };
+                next_id += 1;
+                tokio::time::sleep(grace).await;
+                if live.len() >= limit {
+                    let oldest = live.remove(0);
+                    let gone = if oldest.silent.is_some() {
+                        ev.count("tls_silent_connections_evicted", 1);
+                        true
+                    } else {
+                        wait_until(|| oldest.disconnected(), grace * 10).await
+                    };
+                    ev.count("tls_evictions_expected", 1);
+                    if !gone {
+                        problems.push(("tls:oldest_not_evicted_at_limit:by_silent_connection".to_string(), format!("step {step}: a (silent) connection arrived at the limit ({limit}) but the oldest session (client {}) is still open", oldest.id)));
+                    }
+                    if let Some(c) = &oldest.channel { let _ = c.shutdown().await; }
+                }
+                live.push(p);
             }
             Ev::ClientLeaves(k) => {
                 if !live.is_empty() {
                     let p = live.remove(k % live.len());
-                    let _ = p.channel.shutdown().await;
+                    if let Some(c) = &p.channel { let _ = c.shutdown().await; }
                     ev.count("tls_clients_left", 1);
                     tokio::time::sleep(grace).await;
                 }
@@ -233,7 +284,7 @@ pub async fn run_history(max_sessions: usize, evs: &[Ev], grace: Duration, ev: &
         if late_eviction {
             ev.count("tls_oldest_evicted_by_connection_that_failed_its_handshake", 1);
             let o = live.remove(0);
-            let _ = o.channel.shutdown().await;
+            if let Some(c) = &o.channel { let _ = c.shutdown().await; }
         }
         if !problems.is_empty() {
             break;
@@ -246,8 +297,10 @@ pub async fn run_history(max_sessions: usize, evs: &[Ev], grace: Duration, ev: &
         problems.push(("tls:server_task_did_not_end".into(), "the TLS server task did not end within 10 s after its handle was dropped".into()));
     }
     for p in &live {
-        let st = p.states.clone();
-        let gone = wait_until(|| st.lock().unwrap().iter().any(|s| matches!(s, ClientState::WaitAfterDisconnect(_))), grace * 10).await;
+        if p.silent.is_some() {
+            continue;
+        }
+        let gone = wait_until(|| p.disconnected(), grace * 10).await;
         ev.count("tls_sessions_checked_closed_at_shutdown", 1);
         if !gone && problems.is_empty() {
             problems.push(("tls:session_open_after_server_shutdown".into(), format!("client {} saw no disconnect after the server handle was dropped", p.id)));
@@ -257,7 +310,7 @@ pub async fn run_history(max_sessions: usize, evs: &[Ev], grace: Duration, ev: &
         problems.push(("tls:still_listening_after_shutdown".into(), "a connection to the server port succeeded after shutdown".into()));
     }
     for p in live {
-        let _ = p.channel.shutdown().await;
+        if let Some(c) = &p.channel { let _ = c.shutdown().await; }
     }
     let _ = writes;
     problems
